@@ -44,6 +44,8 @@ EXTRA = [
     {"kind": "float", "args": {"low": -1e10, "high": 1e10}, "K": -9},                 # huge
     {"kind": "float", "args": {"low": 1e-10, "high": 2e-10}, "K": 11},                # tiny
     {"kind": "float", "args": {"low": 1e-10, "high": 2e-10, "log": True}, "K": 11},
+    {"kind": "float", "args": {"low": 0.0, "high": 1e-20}, "K": 21},                  # whole range below the machine epsilon
+    {"kind": "float", "args": {"low": -3e-18, "high": 2e-18}, "K": 19},
     {"kind": "float", "args": {"low": -1e6, "high": -999999.0}, "K": 1},              # narrow, far from 0
     {"kind": "float", "args": {"low": 1.0, "high": 1.0, "log": True}, "K": 1},        # log range [1, 1]
     {"kind": "float", "args": {"low": 1.0, "high": 2.0, "log": True}, "K": 2},        # log range near 1
